@@ -260,7 +260,7 @@ func runRoute(r *hx.Rng, corpus int) *RouteCase {
 	sni := genName(r)
 	if corpus != 0 {
 		c.HasLookup = true
-		sni = []string{"", "suspended.example", "void.example", "suspended-home.example", "suspended-fwd.example"}[corpus]
+		sni = []string{"", "suspended.example", "void.example", "suspended-home.example", "suspended-fwd.example", "variant.example"}[corpus]
 	}
 	// A server name with a trailing dot cannot be carried by a ClientHello
 	// that crypto/tls accepts; the raw names go through the "reject" stream.
@@ -290,7 +290,26 @@ func runRoute(r *hx.Rng, corpus int) *RouteCase {
 	if c.Endpoints == nil {
 		c.Endpoints = []string{}
 	}
+	// a name that differs from a connected one only in letter case (ASCII, the
+	// Kelvin sign for k, the long s for s): not connected
+	variantOf := func(name string) string {
+		switch r.Intn(4) {
+		case 0:
+			return strings.ToUpper(name)
+		case 1:
+			return strings.Replace(name, "e", "E", 1)
+		case 2:
+			return strings.Replace(name, "p", "P", 1)
+		default:
+			return strings.Replace(name, "e", "E", 1) + ""
+		}
+	}
 	someEndpoint := func() string {
+		if len(ueps) > 0 && r.Intn(8) == 0 {
+			if v := variantOf(ueps[r.Intn(len(ueps))]); !seen[v] {
+				return v
+			}
+		}
 		// mostly an endpoint that is connected, so that a refused name that is
 		// routed anyway shows up as a dial
 		if len(ueps) > 0 && r.Intn(4) != 0 {
@@ -335,7 +354,13 @@ func runRoute(r *hx.Rng, corpus int) *RouteCase {
 	}
 	switch {
 	case corpus != 0:
-		addEntry(sni, []int{0, 4, 5, 6, 7}[corpus])
+		if corpus == 5 {
+			e := LookupEntry{Domain: hx16(sni), Name: hx16(strings.ToUpper(ueps[0]))}
+			table[sni] = e
+			c.Table = append(c.Table, e)
+		} else {
+			addEntry(sni, []int{0, 4, 5, 6, 7}[corpus])
+		}
 	case r.Intn(5) != 0:
 		addEntry(sni, r.Intn(14))
 	}
@@ -1207,6 +1232,14 @@ func runRefuse(r *hx.Rng, mode string) *RefuseCase {
 			return &sniproxy.Dest{Home: true}, nil
 		case "fwd.example":
 			return &sniproxy.Dest{ForwardTCP: "127.0.0.1:9"}, nil
+		case "upper.example": // names that differ from a connected endpoint only in letter case
+			return &sniproxy.Dest{Name: "/EP0"}, nil
+		case "mixed.example":
+			return &sniproxy.Dest{Name: "/Ep1"}, nil
+		case "kelvin.example":
+			return &sniproxy.Dest{Name: "/epto\u212a"}, nil // KELVIN SIGN folds to k
+		case "longs.example":
+			return &sniproxy.Dest{Name: "/ep\u017fide"}, nil // LONG S folds to s
 		case "tok.example":
 			return &sniproxy.Dest{Name: "/eptok"}, nil
 		case "side.example":
@@ -1265,6 +1298,10 @@ func runRefuse(r *hx.Rng, mode string) *RefuseCase {
 		{"lookup:forward-err", tagged(hello("suspended-fwd.example"), "T-fwd-err"), false, "refused", "suspended-fwd.example", false},
 		{"lookup:nil-nil", tagged(hello("void.example"), "T-nil-nil"), false, "refused", "void.example", false},
 		{"endpoint:not-connected", tagged(hello("ghost.example"), "T-ghost"), false, "refused", "ghost.example", false},
+		{"endpoint:variant-upper-case", tagged(hello("upper.example"), "T-upper"), false, "refused", "upper.example", false},
+		{"endpoint:variant-mixed-case", tagged(hello("mixed.example"), "T-mixed"), false, "refused", "mixed.example", false},
+		{"endpoint:variant-kelvin-sign", tagged(hello("kelvin.example"), "T-kelvin"), false, "refused", "kelvin.example", false},
+		{"endpoint:variant-long-s", tagged(hello("longs.example"), "T-longs"), false, "refused", "longs.example", false},
 		{"home:no-dialhome", tagged(hello("home.example"), "T-home-missing"), false, "refused", "home.example", false},
 		{"forward:dial-error", tagged(hello("fwd.example"), "T-fwd-error"), false, "refused", "fwd.example", true},
 		{"dial:side-token-error", tagged(hello("tok.example"), "T-tok"), false, sideExpect("/eptok"), "tok.example", siding},
@@ -1468,6 +1505,9 @@ func runHist(r *hx.Rng, corpus bool) *HistCase {
 		dial(d)
 		setLookup(map[string]LookupEntry{d: plain("/ep0"), domains[1]: plain("/ep2")}) // reinstated
 		dial(d)
+		setLookup(map[string]LookupEntry{d: plain("/EP0"), domains[1]: plain("/ep2")}) // a case variant of a connected name
+		dial(d)
+		setLookup(map[string]LookupEntry{d: plain("/ep0"), domains[1]: plain("/ep2")})
 		setRegistry([]string{"/ep1", "/ep2"}) // its endpoint disconnects
 		dial(d)
 		setRegistry(eps)
@@ -1487,7 +1527,7 @@ func runHist(r *hx.Rng, corpus bool) *HistCase {
 		case 3:
 			return LookupEntry{Home: true, Name: hx16("~")}
 		default:
-			return plain([]string{"/ep0", "/ep1", "/ep2", "/ghost"}[r.Intn(4)])
+			return plain([]string{"/ep0", "/ep1", "/ep2", "/ghost", "/EP1", "/Ep2"}[r.Intn(6)])
 		}
 	}
 	for i, n := 0, 8+r.Intn(14); i < n; i++ {
@@ -1546,7 +1586,7 @@ func plan(seed uint64, n int, e2eRounds int, only string) []spec {
 	for _, m := range e2e.Modes { // every refusal path of hostConn, end to end, in each tunnel mode
 		ss = append(ss, spec{stream: "refuse", seed: r.U64(), mode: m})
 	}
-	for k := 1; k <= 4; k++ { // corpus: lookup results (dest, err), (nil, nil), (home, err), (forward, err)
+	for k := 1; k <= 5; k++ { // corpus: lookup results (dest, err), (nil, nil), (home, err), (forward, err), a case variant of a connected endpoint
 		ss = append(ss, spec{stream: "route", seed: r.U64(), a: k})
 	}
 	for i := 0; i < e2eRounds; i++ {
